@@ -168,6 +168,7 @@ func ZZ_C08_Fail() {
 	failAt := zzConcretize(zzChoice("failAt", total))
 	fs.Steps = 0
 	fs.FailAt = failAt
+	fs.MarkDurable()
 	opname := zzC08Ops[op]
 	zzTrapFatal()
 	var err error
@@ -187,6 +188,18 @@ func ZZ_C08_Fail() {
 	mem := zzMemDigest(rn)
 	if err == nil {
 		zzReach("C08.fail.tolerated")
+		// success means durable: whatever the failing call was, no directory update of this
+		// operation may be left unflushed (a failed fsync of the directory leaves it so)
+		// (a failed fsync of the directory leaves updates unflushed: then the state the last
+		// successful fsync made durable must already be the operation's result.  Cleanup
+		// that is merely not flushed - the old head's name after a snapshot - is residue a
+		// reopen tolerates)
+		if fs.DirDirty {
+			zzReach("C08.fail.tolerated-unflushed")
+			fs.PowerLoss()
+			zzReopenCheck("C08.fail-success."+opname+".not-durable", fs, after)
+			return
+		}
 		r2 := zzReopenCheck("C08.fail-success."+opname, fs, after)
 		if r2 != nil && op != 7 {
 			zzAssert(zzSameLinks(zzMemDigest(r2), mem), "C08.fail-success."+opname+".live-chain-disagrees-with-directory")
